@@ -28,21 +28,25 @@ CONSTANTS
   Pads = {0}
   Padfs = {0}
   Showdups = {%(showdups)s}
+  FaultOps = {%(faultops)s}
+  FaultKs = {%(faultks)s}
 %(check)s
 CHECK_DEADLOCK FALSE
 """
-INVS = "Inv_Covered Inv_KeepsCovered Inv_NoTwin Inv_StaleGone Inv_Foreign Inv_Idempotent Inv_Converges Inv_Accounting Inv_FoldAgrees"
+INVS = "Inv_ErrReported Inv_Covered Inv_KeepsCovered Inv_NoTwin Inv_StaleGone Inv_Foreign Inv_Idempotent Inv_Converges Inv_Accounting Inv_FoldAgrees"
 ALLP = '"P1", "P2", "P3", "P4"'
+FAULTOPS = '"list", "create", "delete", "summary"'
 
 
-def cfg(spec, runs, seeds, budgets, shifts, probs, check, strips="FALSE", showdups="FALSE"):
+def cfg(spec, runs, seeds, budgets, shifts, probs, check, strips="FALSE", showdups="FALSE", faultops="", faultks=""):
     return MC_CFG % dict(spec=spec, runs=runs, seeds=seeds, budgets=budgets, shifts=shifts, probs=probs,
-                         check=check, strips=strips, showdups=showdups)
+                         check=check, strips=strips, showdups=showdups, faultops=faultops, faultks=faultks)
 
 
 def sig_of(v):
     return "C17:%s:max=%s:%s:%s%s" % (v["plat"], v["max"], "+".join(sorted(v["fails"])), v.get("via", "mem"),
-                                     (":pad=%s" % v["pad"] if v.get("pad") else "") + (":padf=%s" % v["padf"] if v.get("padf") else ""))
+                                     (":pad=%s" % v["pad"] if v.get("pad") else "") + (":padf=%s" % v["padf"] if v.get("padf") else "")
+                                     + (":anchor-before" if "P7" in v.get("reports", []) else "") + (":fault" if v.get("hit") else ""))
 
 
 def judge(ctx, trace_path, shards, tag):
@@ -107,12 +111,20 @@ def run(ctx, cases_override=None):
                 ("macro3", cfg("MacroSpec", 3, 0, "0, 1, 2, 3", "0", ALLP, "VIEW view\nPROPERTIES Prop_C17")),
                 ("macro2", cfg("MacroSpec", 2, 1, "0, 1, 2, 3", "0, 1", ALLP, "VIEW view\nPROPERTIES Prop_C17")),
                 ("micro-showdup", cfg("Spec", 2, 1, "0, 1, 2", "0, 1", '"P3", "P5", "P6"', "VIEW view\nINVARIANTS " + INVS, showdups="TRUE")),
+                ("micro-before", cfg("Spec", 2, 1, "0, 1, 2", "0, 1", '"P1", "P4", "P7"', "VIEW view\nINVARIANTS " + INVS)),
+                ("micro-faults", cfg("Spec", 2, 1, "0, 1, 2", "0", '"P1", "P2", "P4"', "VIEW view\nINVARIANTS " + INVS,
+                                     faultops=FAULTOPS, faultks="1, 2").replace('Mods = {"all", "first"}', 'Mods = {"all"}')),
+                ("macro3-faults", cfg("MacroSpec", 3, 1, "1, 2", "0", '"P1", "P2", "P4"', "VIEW view\nPROPERTIES Prop_C17",
+                                      faultops=FAULTOPS, faultks="1").replace('Mods = {"all", "first"}', 'Mods = {"all"}')),
             ]
         else:
             plan = [
                 ("micro", cfg("Spec", 2, 1, "0, 1, 2", "0", '"P1", "P2", "P4"', "VIEW view\nINVARIANTS " + INVS)),
-                ("macro2", cfg("MacroSpec", 2, 1, "0, 1, 2", "0", ALLP, "VIEW view\nPROPERTIES Prop_C17")),
+                ("macro2", cfg("MacroSpec", 2, 1, "1, 2", "0", ALLP, "VIEW view\nPROPERTIES Prop_C17")),
                 ("micro-showdup", cfg("Spec", 2, 0, "0, 1, 2", "0", '"P3", "P5", "P6"', "VIEW view\nINVARIANTS " + INVS, showdups="TRUE")),
+                ("micro-before", cfg("Spec", 2, 0, "0, 1, 2", "0", '"P4", "P7"', "VIEW view\nINVARIANTS " + INVS)),
+                ("micro-faults", cfg("Spec", 2, 1, "0, 1, 2", "0", '"P1", "P4"', "VIEW view\nINVARIANTS " + INVS,
+                                     faultops=FAULTOPS, faultks="1").replace('Mods = {"all", "first"}', 'Mods = {"all"}')),
             ]
         for name, text in plan:
             m = ctx.tlc("CommentSync", "c17_%s.cfg" % name, files={"c17_%s.cfg" % name: text}, workers=nw,
@@ -121,8 +133,11 @@ def run(ctx, cases_override=None):
             if m["invariant_violated"]:
                 leads.append("%s:%s" % (name, m["invariant_violated"]))
         # vacuity: the antecedents of Idempotent / Converges are reachable (these "invariants" must be violated)
-        for inv in ("Never_IdempotentFires", "Never_ConvergesLate"):
+        for inv in (("Never_IdempotentFires", "Never_ConvergesLate", "Never_DeleteFails", "Never_CreateFails") if th
+                    else ("Never_IdempotentFires", "Never_DeleteFails", "Never_CreateFails")):
             text = cfg("Spec", 3, 0, "1", "0", ALLP, "VIEW view\nINVARIANTS " + inv)
+            if inv in ("Never_DeleteFails", "Never_CreateFails"):
+                text = cfg("Spec", 2, 1, "1", "0", '"P1", "P4"', "VIEW view\nINVARIANTS " + inv, faultops=FAULTOPS, faultks="1")
             m = ctx.tlc("CommentSync", "c17_vac.cfg", files={"c17_vac.cfg": text}, workers=nw, timeout=3000,
                         allow_violation=True, tag="vacuity-" + inv, dfs=False)
             if m["invariant_violated"] != inv:
@@ -196,7 +211,7 @@ def run(ctx, cases_override=None):
         "distinct_nontrivial": len(nontrivial),
         "rule": "GEN: TLC simulation of GenSpec (platform x maxComments 0..3 x body stripping x <=3 seeded comments "
                 "(matching, stale, foreign, twins) x REST padding x show-duplicates x 4 runs over subsets of 4 (6 with show-duplicates) problems x 4 line variants, every second run "
-                "repeats its predecessor); evaluations = reporting runs judged; non-trivial = runs in which Submit created, "
+                "repeats its predecessor, every third with one failing platform call); evaluations = reporting runs judged; non-trivial = runs in which Submit created, "
                 "deleted or deferred at least one comment",
         "exhaustive": False,
         "gen_cases": len(cases), "http_cases": len(http_cases), "trace_records": nrec + http_rec,
@@ -210,7 +225,8 @@ def run(ctx, cases_override=None):
         "in-memory platform whose IsEqual/CanCreate/CanDelete are the real GitLabReporter/GithubReporter methods (hook H1)",
         "a sample of the cases is repeated with the real GitLabReporter and GithubReporter talking REST to a fake server keeping the same store",
         "a comment 'carries' a problem when its body contains the problem's summary line; comment bodies are compared modulo surrounding newlines",
-        "all problems are AnchorAfter problems on files that are part of the pull request diff; Create/Delete never fail",
+        "files are part of the pull request diff; one problem is about a rule the pull request removes (AnchorBefore), for it only file and text of the comment are judged, not the line",
+        "platform failures: the k-th List/Create/Delete/Summary call of a run fails (in memory: error value; REST: HTTP 403 on the k-th listing/POST/DELETE); runs in which a call failed only owe NoTwin, ForeignUntouched, KeepsCovered, Accounting, the budget bound and a reported error",
         "the line a problem is commented on is taken to be: last line of its range modified by the pull request, else the last line of the range; on GitHub the first modified line of the file when that line is not part of the diff",
     ], drift=drifts)
 
